@@ -5,36 +5,8 @@ From Verif Require Import Response ResponseSpec.
 Import ListNotations.
 Local Open Scope Z_scope.
 
-Section Lst.
-  Variable A : Type.
-  Variable e : A -> A -> bool.
-  Fixpoint lst_eqb (a b : list A) : bool :=
-    match a, b with
-    | [], [] => true
-    | x :: a', y :: b' => e x y && lst_eqb a' b'
-    | _, _ => false
-    end.
-  Definition opt_eqb (a b : option A) : bool :=
-    match a, b with Some x, Some y => e x y | None, None => true | _, _ => false end.
-End Lst.
-Arguments lst_eqb {A} e a b.
-Arguments opt_eqb {A} e a b.
-
 Definition pair_eqb {A B} (ea : A -> A -> bool) (eb : B -> B -> bool) (p q : A * B) : bool :=
   ea (fst p) (fst q) && eb (snd p) (snd q).
-
-Fixpoint cqlt_eqb (a b : cqlt) : bool :=
-  match a, b with
-  | TCustom s, TCustom s' => list_eqb s s'
-  | TPrim c, TPrim c' => c =? c'
-  | TList x, TList y => cqlt_eqb x y
-  | TSet x, TSet y => cqlt_eqb x y
-  | TMap k v, TMap k' v' => cqlt_eqb k k' && cqlt_eqb v v'
-  | TUdt ks nm fs, TUdt ks' nm' fs' =>
-    list_eqb ks ks' && list_eqb nm nm' && lst_eqb (fun p q => list_eqb (fst p) (fst q) && cqlt_eqb (snd p) (snd q)) fs fs'
-  | TTuple ts, TTuple ts' => lst_eqb cqlt_eqb ts ts'
-  | _, _ => false
-  end.
 
 Definition colspec_eqb (a b : colspec) : bool :=
   list_eqb (c_ks a) (c_ks b) && list_eqb (c_tbl a) (c_tbl b) && list_eqb (c_name a) (c_name b) && cqlt_eqb (c_type a) (c_type b).
@@ -151,3 +123,8 @@ Definition chk (pv : Z) (rm : option (list colspec)) (stream : Z) (r : response)
 (* One arbitrary (malformed) body: the model must accept/reject and decode exactly like the implementation. *)
 Definition chk_raw (pv : Z) (rm : option (list colspec)) (stream flags opcode : Z) (body : list Z) (impl : option msg) : Z :=
   if opt_eqb msg_eqb (decode_message pv rm stream flags opcode body) impl then 0 else 4.
+
+(* A history of frames decoded by one process, starting with no class cached for the UDT names it mentions: the
+   stateful model (UDT class cache threaded through) must give the implementation's result for every frame. *)
+Definition chk_hist (fs : list frame) (impl : list (option msg)) : Z :=
+  if lst_eqb (opt_eqb msg_eqb) (decode_history true [] fs) impl then 0 else 6.
